@@ -24,6 +24,7 @@ CHECKS = {
  "C16": ("exploration", "round-trip monitors on the repository's own Python layer (src/awkward on the akext stand-in): to_buffers/from_buffers (form_key/key_format choices, raw-bytes containers, partitioned input), pickle, to_numpy/from_numpy (n-d, strided, masked, structured, strings) and to_arrow/from_arrow with the Arrow options, results read through the bridge's structural dump and, for Arrow, through pyarrow's own to_pylist", "held on the executions produced (lane P); conversions of datetime leaves, strided leaf buffers, union types through Arrow and a few other corners are recorded known findings and run in a capped stream", "4 C16"),
  "C17": ("exploration", "runtime monitor: library type strings vs the layout model's own type derivation, Content vs Form queries, Form JSON round trips, element/range type consistency; ASan build", "held on the executions produced (lane L)", "4 C17"),
  "C13": ("exploration", "differential runtime monitor: every compiled kernel specialisation vs its YAML Python definition run on index-recording typed lists; malloc-exact extents under ASan, canaries on the plain build, cross-specialisation comparison", "held on the accepted argument tuples of one run (all 690 specialisations reached)", "4 C13"),
+ "C19": ("exploration", "differential runtime monitor: generated AwkwardForth programs (whole documented vocabulary, valid and invalid sources) and input bytes run on ForthMachine32 and ForthMachine64 through the C-ABI bridge and on an independent reference interpreter of the documented semantics (vlib/forthref.py): stack, variables, input positions, outputs, error; segmentation monitor (run vs begin+step vs pause/resume at every token boundary vs call), configuration monitor (output growth, stack/recursion limits), decompile round trip, determinism; ASan build", "held on the programs and schedules produced; the reference abstains (counted) where the documentation does not fix the behaviour", "4 C19"),
  "C20": ("exploration", "differential runtime monitor on the repository's Numba extension (src/awkward/_connect/_numba on numba 0.67): access programs generated from the array's type (nested loops with early exits and a position-weighted checksum, len, integer/negative/out-of-range and chained indexing, range slices, field access, `in`, numpy.asarray, ArrayBuilder copies, pass-through) run compiled (numba.njit) and interpreted on the same ak.Array over every lowered node class; reference-count monitor (sys.getrefcount and the C++ owners' use_count) over 1/10/100 calls", "held on the executions produced (lane P); union-type elements, strings and complex/datetime leaves are not accessed inside compiled code (documented as unsupported there)", "4 C20"),
 }
 NOT_YET = "check not built yet (framework under construction; see DESIGN.md section 11 for order)"
